@@ -1133,11 +1133,11 @@ def _while(ctx, eqn, ins):
         if not S.is_sym(cur):
             if not cur:
                 break
-        if it >= ctx.unroll:
-            if S.is_sym(cur):
-                ctx.unwind.append(z3.Not(cur))
-                break
-            raise NotEncodable(f"while needs more than {ctx.unroll} iterations")
+        if it >= ctx.unroll and S.is_sym(cur):
+            ctx.unwind.append(z3.Not(cur))
+            break
+        if it >= max(ctx.unroll, 64):
+            raise NotEncodable(f"while needs more than {max(ctx.unroll, 64)} iterations")
         nd = len(ctx.domain)
         new = eval_jaxpr(ctx, bj, bc, list(bconsts) + carry)
         if S.is_sym(cur):
